@@ -32,6 +32,20 @@ pub fn root_from_path(i: u64, n: u64, leaf: &B32, path: &[B32]) -> Option<B32> {
     }
 }
 
+/// Native replay only: re-check `verify == reference` for every root some fold of the proof can
+/// produce with the real hash (see mk::candidate_roots).
+#[cfg(verif_playback)]
+fn replay_candidates(data: &Leaf, proof: &Vec<B32>, index: u64, count: u64) {
+    for root in candidate_roots(&h_leaf(&data.b), proof, h_node) {
+        let got = binary::verify(&root, &data.b, proof, index, count);
+        let expect = index < count
+            && match root_from_path(index, count, &h_leaf(&data.b), proof) { Some(r) => eq32(&r, &root), None => false };
+        assert!(got == expect, "verify disagrees with the RFC 6962 recomputation for a SHA-256 witness");
+    }
+}
+#[cfg(not(verif_playback))]
+fn replay_candidates(_data: &Leaf, _proof: &Vec<B32>, _index: u64, _count: u64) {}
+
 /// Soundness / "exactly when": verify(root, data, proof, index, count) == (index < count and the
 /// recomputation reaches root), for symbolic root, data, every proof entry and index; (count, proof
 /// length) are harness constants.
@@ -46,6 +60,7 @@ fn sound<const COUNT: u64, const LEN: usize>() {
     let expect = index < COUNT
         && match root_from_path(index, COUNT, &h_leaf(&data.b), &proof) { Some(r) => eq32(&r, &root), None => false };
     assert!(got == expect);
+    replay_candidates(&data, &proof, index, COUNT);
     kani::cover!(got, "an accepting tuple exists");
     kani::cover!(!got, "a rejected tuple exists");
     core::mem::forget(proof);
@@ -66,6 +81,7 @@ fn sound_reject<const COUNT: u64, const LEN: usize>() {
         && match root_from_path(index, COUNT, &h_leaf(&data.b), &proof) { Some(r) => eq32(&r, &root), None => false };
     assert!(got == expect);
     assert!(!got);
+    replay_candidates(&data, &proof, index, COUNT);
     kani::cover!(!got, "rejected");
     core::mem::forget(proof);
 }
